@@ -194,13 +194,15 @@ func randomOp(r *hlib.Rng, name string, qf qframe.QFrame, other qframe.QFrame) o
 		}}
 	case 5:
 		col := []string{"A", "S", "E", "O"}[r.Intn(4)]
-		return op{fmt.Sprintf("%s.Distinct(%s)", name, col), func() string {
-			return digestUnordered(qf.Distinct(groupby.Columns(col), groupby.Null(true)).Select(col))
+		nulleq := r.Bool() // with Null(false) every null-keyed row is its own key (random hash values)
+		return op{fmt.Sprintf("%s.Distinct(%s, null=%v)", name, col, nulleq), func() string {
+			return digestUnordered(qf.Distinct(groupby.Columns(col), groupby.Null(nulleq)).Select(col))
 		}}
 	case 6:
 		col := []string{"A", "S", "E", "O"}[r.Intn(4)]
-		return op{fmt.Sprintf("%s.GroupBy(%s).Aggregate(count B,sum A as T)", name, col), func() string {
-			g := qf.GroupBy(groupby.Columns(col), groupby.Null(true))
+		nulleq := r.Bool()
+		return op{fmt.Sprintf("%s.GroupBy(%s, null=%v).Aggregate(count B,sum A as T)", name, col, nulleq), func() string {
+			g := qf.GroupBy(groupby.Columns(col), groupby.Null(nulleq))
 			return digestUnordered(g.Aggregate(qframe.Aggregation{Fn: "count", Column: "B", As: "C"},
 				qframe.Aggregation{Fn: func(x []int) int {
 					t := 0
